@@ -33,7 +33,7 @@ class C13(Prop):
             nn = rng.choice([1, 2, 10, 10, 300 if tier == "quick" else 2000])
             if engine == "Sobol" and nn not in (1, 2):
                 nn = rng.choice([8, 16, 256])
-            seed = rng.randint(0, 10**6)
+            seed = rng.choice([0, 0, 1] + [rng.randint(0, 10**6)] * 12)      # seed 0 is a seed like any other
             if rng.random() < 0.6:
                 d = rng.randint(2, 4)
                 shape = rng.choice(["random", "interior", "collinear", "skewed"])
@@ -61,6 +61,12 @@ class C13(Prop):
             else:
                 m0 = rng.randint(2, 4)
                 sys = gs.gen_system(rng, mrange=(m0, m0), nrange=(m0, 5), finite_ub=True, lb_zero=(rng.random() < 0.6), Kkind=rng.choice(["none", "scalar", "vector"]))
+                if rng.random() < 0.25:
+                    # one source held at a fixed non-zero intensity (a constant background light): lb == ub there
+                    j = rng.randrange(sys["n"]); lbh = np.array(sys["lb"], dtype=float); ubh = np.array(sys["ub"], dtype=float)
+                    lbh[j] = ubh[j] = float(ubh[j]) / 2
+                    if sys["n"] - 1 >= m0 and gs.well_scaled(sys["A"], lbh, np.where(ubh > lbh, ubh, lbh + 1e-9), sys["K"], sys["baseline"]):
+                        sys = dict(sys, lb=lbh, ub=ubh)
                 l1 = None
                 if rng.random() < 0.35:
                     ext = float(np.sum(gs.rel_capture(sys, sys["ub"] * 0.5)))
